@@ -844,11 +844,59 @@ pub fn run(cx: &Cx) -> Report {
         |c| json!({"clock": c}),
     ));
     rep.mark(cx, "clock-dependent-literals");
+    // the other direction of the subtraction: a duration minus an instant is no instant (and no
+    // duration). rink refuses `-#d#` and `#d# + #d#`; `t - d` has to be refused with them
+    {
+        let mut items: Vec<String> = vec![];
+        let dates = ["#2020-01-01#", "#2020-02-29 12:00:00 +05:30#", "#1999-12-31 23:59:59.999999999#", "#2020-07-01 12:00:00 Europe/Berlin#", "now", "#0001-01-01#", "#9999-12-31#"];
+        let amounts = ["1", "0", "-3", "1|3", "86400", "1e9", "0.5", "2.25"];
+        let units = ["s", "ns", "ms", "minute", "hour", "day", "week", "year", "century", ""];
+        for d in dates {
+            for a in amounts {
+                for u in units {
+                    items.push(format!("{} {} - {}", a, u, d));
+                }
+            }
+            items.push(format!("(1 s + 1 s) - {}", d));
+            items.push(format!("1 s - ({} + 1 s)", d));
+            items.push(format!("3 m - {}", d));
+        }
+        let k = known.clone();
+        rep.absorb(par_sweep(
+            cx,
+            "number-minus-date",
+            items,
+            move || mk_env(k.clone()),
+            |env, text, st| check_number_minus_date(env, text, st),
+            |text| json!({"number_minus_date": text}),
+        ));
+        rep.mark(cx, "number-minus-date");
+    }
     rep
+}
+
+pub fn check_number_minus_date(env: &Env, text: &String, st: &mut Stats) -> CaseResult {
+    st.eval();
+    st.class("number_minus_date");
+    st.nontrivial(text);
+    match rinkx::eval_line(&env.ctx, text) {
+        Out::Panic(p) => fail(env, st, &panic_signature(&p), text, format!("panicked: {}", p)),
+        Out::Error(_) => Ok(()),
+        Out::Reply(r) => fail(
+            env,
+            st,
+            "number-minus-date-accepted",
+            text,
+            format!("a number minus a date was answered (as if it were the date minus the number): {}", r),
+        ),
+    }
 }
 
 pub fn replay(cx: &Cx, _phase: &str, case: &J, st: &mut Stats) -> CaseResult {
     let env = mk_env(cx.known.clone());
+    if let Some(t) = case.get("number_minus_date").and_then(|t| t.as_str()) {
+        return check_number_minus_date(&env, &t.to_string(), st);
+    }
     if case.get("clock").is_some() {
         let c: ClockLit = serde_json::from_value(case["clock"].clone()).map_err(|e| format!("bad case: {}", e))?;
         let env = ClockEnv { ctx: std::cell::RefCell::new(rinkx::new_ctx()), known: cx.known.clone() };
